@@ -168,6 +168,29 @@ def parse_var_keywords(test_str: str) -> tuple[list[str], str]:
     return keywords, test_str
 
 
+def get_parameter_value(line: str) -> str:
+    """The initialisation expression at the start of ``line``: up to the comma that
+    separates the next entity, skipping parentheses, brackets and character literals
+    """
+    depth = 0
+    quote = ""
+    end = len(line)
+    for i, char in enumerate(line):
+        if quote:
+            if char == quote:
+                quote = ""
+        elif char in ("'", '"'):
+            quote = char
+        elif char in ("(", "["):
+            depth += 1
+        elif char in (")", "]"):
+            depth -= 1
+        elif (char == "," and depth <= 0) or char == "!":
+            end = i
+            break
+    return " ".join(line[:end].replace("&", " ").split())
+
+
 def read_var_def(line: str, var_type: str | None = None, fun_only: bool = False):
     """Attempt to read variable definition line"""
 
@@ -1480,7 +1503,7 @@ class FortranFile:
                             _, col = find_word_in_line(line, name)
                             match = FRegex.PARAMETER_VAL.match(line[col:])
                             if match:
-                                var = " ".join(match.group(1).strip().split())
+                                var = get_parameter_value(line[col + match.start(1) :])
                                 new_var.set_parameter_val(var)
 
                         # Check if the "variable" is external and if so cycle
